@@ -10,6 +10,19 @@
 //   behaviour of pivoting-on.)  n = 1..7 for fm / diag, 1..10 for dm.
 //   <A> row-major (diag: the n diagonal entries); gf: residues, floats: binary64 bit patterns in decimal
 //   (c64: re,im pairs; ld: the double values are widened to long double).
+//   Round three:
+//   field = <base>[@ka@kb][%L]
+//     base  gf | f64 | ld | c64 | v64 (= LoopSIMD<double,4>: <A> and <b> list the 4 lanes one after the other,
+//           every lane is a matrix / right-hand side of its own; rep = fm | dm only)
+//     @ka@kb (ld only): A is multiplied by 2^ka and b by 2^kb after widening (exact), so that long double operands
+//           outside the exponent range of double can be written;  |ka|, |kb| <= 16000
+//     %L    FMatrixPrecision<>::set_absolute_limit is called with 10^L (L integer, -320..308) or 0 (L = z) around the
+//           call (double, long double and float instances).  In the default build neither the closed forms nor the LU
+//           path may depend on that setting: the property is stated for every nonsingular matrix.
+//   Floating-point matrices that have a zero row, a zero column or two identical rows are exactly singular, and
+//   the elimination meets an exact zero pivot whatever the rounding: for n >= 4 the property demands FMatrixError /
+//   a determinant that is exactly 0 (both pivoting modes); everything else the float generators produce has a
+//   bounded condition number.
 //
 // Independent oracle (never uses the code under test nor Fp's own division):
 //   gf:  determinant by Laplace expansion over column subsets with plain integer arithmetic mod p, leading
@@ -30,6 +43,9 @@
 #include <dune/common/fmatrix.hh>
 #include <dune/common/ftraits.hh>
 #include <dune/common/fvector.hh>
+#include <dune/common/precision.hh>
+#include <dune/common/simd/loop.hh>
+#include <dune/common/simd/simd.hh>
 #include <dune/common/typetraits.hh>
 #include <limits>
 
@@ -458,19 +474,61 @@ template <class K> long double epsOf() {
   return std::numeric_limits<R>::epsilon();
 }
 
+// exactly singular whatever the rounding: a zero row, a zero column, or (real types only: x/x == 1 exactly, which
+// the complex division does not guarantee) two identical rows.  The elimination then meets an exact zero pivot in
+// both pivoting modes (a zero row/column stays zero under row exchanges and updates; two identical rows stay
+// identical until one of them is the pivot row, the other is then eliminated with the factor 1 and becomes zero).
+template <class K> static bool isZeroK(const K& x) { return x == K(0); }
+template <class K> static bool structSingular(const std::vector<K>& full, int n, bool allowDupRows) {
+  for (int i = 0; i < n; ++i) {
+    bool zr = true, zc = true;
+    for (int j = 0; j < n; ++j) { zr = zr && isZeroK(full[i * n + j]); zc = zc && isZeroK(full[j * n + i]); }
+    if (zr || zc) return true;
+  }
+  if (allowDupRows)
+    for (int i = 0; i < n; ++i)
+      for (int k = i + 1; k < n; ++k) {
+        bool same = true;
+        for (int j = 0; j < n; ++j) same = same && (full[i * n + j] == full[k * n + j]);
+        if (same) return true;
+      }
+  return false;
+}
+template <class K> struct IsCx : std::false_type {};
+template <class T> struct IsCx<std::complex<T>> : std::true_type {};
+
+// verdict on one floating-point result (`a`, `b` are the operands the code was called with)
 template <class K>
-static Result execFlt(const std::string& op, const std::string& rep, int n, int piv, const std::vector<K>& a,
-                      const std::vector<K>& b) {
+static Result judgeFlt(const std::string& op, const std::string& rep, int n, const std::vector<K>& a,
+                       const std::vector<K>& b, const Raw<K>& r) {
   Result res;
-  Raw<K> r = runAny<K>(op, rep, n, piv, a, b);
   if (r.other == "bad-op") { res.impl = "bad-op"; res.oracle = "FAIL harness cannot execute this op line"; return res; }
-  auto fail = [&](const std::string& m) { if (res.oracle == "ok") res.oracle = "FAIL " + m; };
+  auto fail = [&](const std::string& m) { if (res.oracle == "ok" || res.oracle == "ok trivial") res.oracle = "FAIL " + m; };
   if (!r.other.empty()) { res.impl = r.other; fail("unexpected exception kind " + r.other); return res; }
   if (r.inputsChanged) fail("A or b modified by " + op);
-  if (r.threw) { res.impl = "ERR:FMatrix"; fail("FMatrixError for a well-conditioned matrix"); return res; }
   std::vector<K> full(n * n, K(0));
   if (rep == "diag") for (int i = 0; i < n; ++i) full[i * n + i] = a[i];
   else full = a;
+  const bool sing = structSingular(full, n, !IsCx<K>::value);
+  if (sing) {
+    stat("flt_exactly_singular");
+    if (rep == "diag" || n <= 3) {  // the property fixes nothing
+      res.impl = "unspecified";
+      if (res.oracle == "ok") res.oracle = "ok trivial";
+      return res;
+    }
+    if (op == "det") {
+      if (r.threw) { res.impl = "ERR:FMatrix"; fail("determinant threw"); return res; }
+      bool z = isZeroK(r.det);
+      res.impl = z ? "resid-ok" : "resid-bad";
+      if (!z) fail("determinant of an exactly singular matrix is not 0");
+      return res;
+    }
+    res.impl = r.threw ? "ERR:FMatrix" : "resid-bad";
+    if (!r.threw) fail(op + " returned numbers for an exactly singular matrix");
+    return res;
+  }
+  if (r.threw) { res.impl = "ERR:FMatrix"; fail("FMatrixError for a well-conditioned matrix"); return res; }
   const long double tol = 100.0L * n * n * epsOf<K>();
   auto normInf = [&](const std::vector<K>& m) {
     long double best = 0;
@@ -542,6 +600,143 @@ static Result execFlt(const std::string& op, const std::string& rep, int n, int 
   return res;
 }
 
+template <class K>
+static Result execFlt(const std::string& op, const std::string& rep, int n, int piv, const std::vector<K>& a,
+                      const std::vector<K>& b) {
+  Raw<K> r = runAny<K>(op, rep, n, piv, a, b);
+  return judgeFlt<K>(op, rep, n, a, b, r);
+}
+
+// ------------------------------------------------------------------------------------------------
+// SIMD field type LoopSIMD<double,4>: every lane is a matrix of its own (the lanes generally need different pivot
+// rows; some may be exactly singular).  The verdict is the scalar float verdict lane by lane.
+// ------------------------------------------------------------------------------------------------
+static constexpr int LANES = 4;
+using VD = Dune::LoopSIMD<double, LANES>;
+
+struct RawV {
+  bool threw = false;
+  std::string other;
+  std::vector<VD> out;
+  VD det{};
+  bool inputsChanged = false;
+};
+static bool sameV(const VD& x, const VD& y) {
+  for (int l = 0; l < LANES; ++l) if (!(x[l] == y[l])) return false;
+  return true;
+}
+template <class M, class V>
+RawV runDenseV(M& A, V& x, V& bv, const std::string& op, int n, int piv, const std::vector<VD>& a, const std::vector<VD>& b) {
+  RawV r;
+  for (int i = 0; i < n; ++i) for (int j = 0; j < n; ++j) A[i][j] = a[i * n + j];
+  auto sameA = [&] {
+    for (int i = 0; i < n; ++i) for (int j = 0; j < n; ++j) if (!sameV(A[i][j], a[i * n + j])) return false;
+    return true;
+  };
+  try {
+    if (op == "solve") {
+      for (int i = 0; i < n; ++i) { bv[i] = b[i]; x[i] = VD(double(1000 + 7 * i)); }
+      const M& cA = A;
+      const V& cb = bv;
+      try {
+        if (piv == 2) cA.solve(x, cb); else cA.solve(x, cb, piv == 1);
+        for (int i = 0; i < n; ++i) r.out.push_back(x[i]);
+      } catch (Dune::FMatrixError&) { r.threw = true; }
+      bool sb = true;
+      for (int i = 0; i < n; ++i) sb = sb && sameV(bv[i], b[i]);
+      r.inputsChanged = !sameA() || !sb;
+    } else if (op == "det") {
+      const M& cA = A;
+      try { r.det = piv == 2 ? cA.determinant() : cA.determinant(piv == 1); } catch (Dune::FMatrixError&) { r.threw = true; }
+      r.inputsChanged = !sameA();
+    } else if (op == "invert") {
+      try {
+        if (piv == 2) A.invert(); else A.invert(piv == 1);
+        for (int i = 0; i < n; ++i) for (int j = 0; j < n; ++j) r.out.push_back(A[i][j]);
+      } catch (Dune::FMatrixError&) { r.threw = true; }
+    } else
+      r.other = "bad-op";
+  } catch (Dune::Exception& e) {
+    r.other = "ERR:DuneException";
+  } catch (std::exception& e) {
+    r.other = "ERR:std";
+  }
+  return r;
+}
+template <int n> RawV runFMV(const std::string& op, int piv, const std::vector<VD>& a, const std::vector<VD>& b) {
+  Dune::FieldMatrix<VD, n, n> A;
+  Dune::FieldVector<VD, n> x, bv;
+  return runDenseV(A, x, bv, op, n, piv, a, b);
+}
+static RawV runAnyV(const std::string& op, const std::string& rep, int n, int piv, const std::vector<VD>& a, const std::vector<VD>& b) {
+  if (rep == "dm") {
+    Dune::DynamicMatrix<VD> A(n, n, VD(0.0));
+    Dune::DynamicVector<VD> x(n, VD(0.0)), bv(n, VD(0.0));
+    return runDenseV(A, x, bv, op, n, piv, a, b);
+  }
+  if (rep == "fm") {
+    switch (n) {
+      case 1: return runFMV<1>(op, piv, a, b);
+      case 2: return runFMV<2>(op, piv, a, b);
+      case 3: return runFMV<3>(op, piv, a, b);
+      case 4: return runFMV<4>(op, piv, a, b);
+      case 5: return runFMV<5>(op, piv, a, b);
+      case 6: return runFMV<6>(op, piv, a, b);
+      case 7: return runFMV<7>(op, piv, a, b);
+    }
+  }
+  RawV r;
+  r.other = "bad-op";
+  return r;
+}
+
+// a, b: lane-major (lane 0's matrix, lane 1's matrix, ...)
+static Result execSimd(const std::string& op, const std::string& rep, int n, int piv, const std::vector<double>& a,
+                       const std::vector<double>& b) {
+  Result res;
+  const bool needB = op == "solve";
+  std::vector<VD> av(n * n), bv(needB ? n : 0);
+  for (int l = 0; l < LANES; ++l) {
+    for (int t = 0; t < n * n; ++t) av[t][l] = a[l * n * n + t];
+    if (needB) for (int t = 0; t < n; ++t) bv[t][l] = b[l * n + t];
+  }
+  RawV r = runAnyV(op, rep, n, piv, av, bv);
+  if (r.other == "bad-op") { res.impl = "bad-op"; res.oracle = "FAIL harness cannot execute this op line"; return res; }
+  std::vector<std::vector<double>> la(LANES), lb(LANES);
+  int nsing = 0, firstSing = -1;
+  for (int l = 0; l < LANES; ++l) {
+    la[l].assign(a.begin() + l * n * n, a.begin() + (l + 1) * n * n);
+    if (needB) lb[l].assign(b.begin() + l * n, b.begin() + (l + 1) * n);
+    if (structSingular(la[l], n, true)) { ++nsing; if (firstSing < 0) firstSing = l; }
+  }
+  stat(nsing == 0 ? "simd_all_lanes_regular" : nsing == LANES ? "simd_all_lanes_singular" : "simd_mixed_lanes");
+  // solve / invert throw as a whole as soon as one lane is singular: judge the lanes against that
+  if (op != "det" && n >= 4 && nsing > 0 && r.other.empty() && !r.inputsChanged) {
+    res.impl = r.threw ? "ERR:FMatrix" : "resid-bad";
+    if (!r.threw) res.oracle = "FAIL " + op + " returned numbers although lane " + std::to_string(firstSing) + " is exactly singular";
+    return res;
+  }
+  bool allGood = true, anyUnspec = false;
+  for (int l = 0; l < LANES; ++l) {
+    Raw<double> rl;
+    rl.threw = r.threw;
+    rl.other = r.other;
+    rl.inputsChanged = r.inputsChanged;
+    for (auto& v : r.out) rl.out.push_back(v[l]);
+    rl.det = r.det[l];
+    Result one = judgeFlt<double>(op, rep, n, la[l], lb[l], rl);
+    if (one.oracle.rfind("FAIL", 0) == 0) {
+      if (res.oracle.rfind("FAIL", 0) != 0) res.oracle = "FAIL lane " + std::to_string(l) + ": " + one.oracle.substr(5);
+    }
+    if (one.impl == "unspecified") anyUnspec = true;
+    else if (one.impl != "resid-ok") { allGood = false; if (one.impl != "resid-bad") { res.impl = one.impl; } }
+  }
+  if (!res.impl.empty()) return res;           // ERR:FMatrix / exception kind, same for all lanes
+  if (anyUnspec) { res.impl = "unspecified"; if (res.oracle == "ok") res.oracle = "ok trivial"; return res; }
+  res.impl = allGood ? "resid-ok" : "resid-bad";
+  return res;
+}
+
 // ------------------------------------------------------------------------------------------------
 // executor
 // ------------------------------------------------------------------------------------------------
@@ -566,13 +761,93 @@ static std::vector<unsigned long long> parseUList(const std::string& s) {
   return out;
 }
 
+// field token  <base>[@ka@kb][%L]
+struct FieldTok {
+  std::string base;
+  bool scaled = false;
+  long ka = 0, kb = 0;
+  bool hasLimit = false;
+  double limit = 0;
+};
+static bool parseSmallInt(const std::string& t, long& out) {  // -?[0-9]{1,5}
+  size_t i = 0;
+  if (!t.empty() && t[0] == '-') i = 1;
+  if (t.size() - i < 1 || t.size() - i > 5) return false;
+  for (size_t k = i; k < t.size(); ++k) if (t[k] < '0' || t[k] > '9') return false;
+  out = std::atol(t.c_str());
+  return true;
+}
+static bool parseFieldTok(const std::string& w, FieldTok& f) {
+  std::string rest = w;
+  size_t pc = rest.find('%');
+  if (pc != std::string::npos) {
+    std::string L = rest.substr(pc + 1);
+    rest = rest.substr(0, pc);
+    f.hasLimit = true;
+    if (L == "z") f.limit = 0.0;
+    else {
+      long e;
+      if (!parseSmallInt(L, e) || e < -320 || e > 308) return false;
+      f.limit = std::pow(10.0, (double)e);
+    }
+  }
+  auto parts = split(rest, '@');
+  f.base = parts[0];
+  if (parts.size() == 1) return true;
+  if (parts.size() != 3 || f.base != "ld") return false;
+  f.scaled = true;
+  if (!parseSmallInt(parts[1], f.ka) || !parseSmallInt(parts[2], f.kb)) return false;
+  if (std::labs(f.ka) > 16000 || std::labs(f.kb) > 16000) return false;
+  return true;
+}
+
+// FMatrixPrecision<>::set_absolute_limit around the call (restored afterwards)
+struct LimitGuard {
+  double d;
+  long double l;
+  float f;
+  bool on;
+  LimitGuard(bool use, double v) : on(use) {
+    d = Dune::FMatrixPrecision<double>::absolute_limit();
+    l = Dune::FMatrixPrecision<long double>::absolute_limit();
+    f = Dune::FMatrixPrecision<float>::absolute_limit();
+    if (on) {
+      Dune::FMatrixPrecision<double>::set_absolute_limit(v);
+      Dune::FMatrixPrecision<long double>::set_absolute_limit((long double)v);
+      Dune::FMatrixPrecision<float>::set_absolute_limit((float)v);
+    }
+  }
+  ~LimitGuard() {
+    Dune::FMatrixPrecision<double>::set_absolute_limit(d);
+    Dune::FMatrixPrecision<long double>::set_absolute_limit(l);
+    Dune::FMatrixPrecision<float>::set_absolute_limit(f);
+  }
+};
+
+static void scaleStat(const char* what, long k) {
+  long m = std::labs(k);
+  const char* cls = m == 0 ? "0" : m <= 64 ? "1_64" : m <= 265 ? "65_265" : m <= 400 ? "266_400" : m <= 1000 ? "401_1000" : "1001_up";
+  stat(std::string(what) + (k < 0 ? "_neg_" : k > 0 ? "_pos_" : "_") + cls);
+}
+// binary exponent of the largest entry (statistics: which magnitudes do the float operands have)
+static void magStat(const std::vector<double>& a, long extra) {
+  double m = 0;
+  for (double x : a) m = std::max(m, std::fabs(x));
+  if (m == 0 || !std::isfinite(m)) return;
+  int e;
+  std::frexp(m, &e);
+  scaleStat("flt_A_exp2", (long)e + extra);
+}
+
 static Result execLine(const std::string& line) {
   Result bad;
   bad.impl = "bad-op";
   bad.oracle = "FAIL harness cannot parse this op line";
   auto w = words(line);
   if (w.size() != 6 && w.size() != 7) return bad;
-  const std::string &field = w[0], &op = w[1], &rep = w[2];
+  FieldTok ft;
+  if (!parseFieldTok(w[0], ft)) return bad;
+  const std::string &field = ft.base, &op = w[1], &rep = w[2];
   if (w[3].empty() || w[3].find_first_not_of("0123456789") != std::string::npos || w[3].size() > 2) return bad;
   int n = std::atoi(w[3].c_str());
   if (w[4] != "0" && w[4] != "1" && w[4] != "d") return bad;
@@ -584,12 +859,16 @@ static Result execLine(const std::string& line) {
   if (rep != "fm" && rep != "dm" && rep != "diag") return bad;
   if (op != "solve" && op != "invert" && op != "det" && op != "fmhinv" && op != "fmhinvT") return bad;
   if ((op == "fmhinv" || op == "fmhinvT") && (rep != "fm" || n > 3)) return bad;
+  if (field == "v64" && (rep == "diag" || op == "fmhinv" || op == "fmhinvT" || n > 7)) return bad;
+  if (field != "gf" && field != "f64" && field != "ld" && field != "c64" && field != "v64") return bad;
   size_t cnt = rep == "diag" ? n : n * n;
   stat("field_" + field);
   stat("op_" + op);
   stat("rep_" + rep);
   stat("n_" + std::to_string(n));
   if (rep != "diag") stat(piv == 1 ? "pivoting_on" : piv == 0 ? "pivoting_off" : "pivoting_default_argument");
+  if (ft.hasLimit) stat("absolute_limit_set");
+  LimitGuard guard(ft.hasLimit, ft.limit);
   if (field == "gf") {
     std::vector<long> a = parseList(w[5]), b;
     if (needB) b = parseList(w[6]);
@@ -600,24 +879,24 @@ static Result execLine(const std::string& line) {
   }
   std::vector<unsigned long long> ua = parseUList(w[5]), ub;
   if (needB) ub = parseUList(w[6]);
-  size_t scal = field == "c64" ? 2 : 1;
+  size_t scal = field == "c64" ? 2 : field == "v64" ? LANES : 1;
   if (ua.size() != cnt * scal || (needB && ub.size() != n * scal)) return bad;
-  if (field == "f64") {
-    std::vector<double> a, b;
-    for (auto u : ua) a.push_back(dblOfBits((long long)u));
-    for (auto u : ub) b.push_back(dblOfBits((long long)u));
-    return execFlt<double>(op, rep, n, piv, a, b);
-  }
+  std::vector<double> da, db;
+  for (auto u : ua) da.push_back(dblOfBits((long long)u));
+  for (auto u : ub) db.push_back(dblOfBits((long long)u));
+  magStat(da, ft.scaled ? ft.ka : 0);
+  if (field == "f64") return execFlt<double>(op, rep, n, piv, da, db);
+  if (field == "v64") return execSimd(op, rep, n, piv, da, db);
   if (field == "ld") {
     std::vector<long double> a, b;
-    for (auto u : ua) a.push_back((long double)dblOfBits((long long)u));
-    for (auto u : ub) b.push_back((long double)dblOfBits((long long)u));
+    for (double x : da) a.push_back(std::ldexp((long double)x, (int)ft.ka));
+    for (double x : db) b.push_back(std::ldexp((long double)x, (int)ft.kb));
     return execFlt<long double>(op, rep, n, piv, a, b);
   }
   if (field == "c64") {
     std::vector<std::complex<double>> a, b;
-    for (size_t i = 0; i + 1 < ua.size(); i += 2) a.emplace_back(dblOfBits((long long)ua[i]), dblOfBits((long long)ua[i + 1]));
-    for (size_t i = 0; i + 1 < ub.size(); i += 2) b.emplace_back(dblOfBits((long long)ub[i]), dblOfBits((long long)ub[i + 1]));
+    for (size_t i = 0; i + 1 < da.size(); i += 2) a.emplace_back(da[i], da[i + 1]);
+    for (size_t i = 0; i + 1 < db.size(); i += 2) b.emplace_back(db[i], db[i + 1]);
     return execFlt<std::complex<double>>(op, rep, n, piv, a, b);
   }
   return bad;
@@ -833,6 +1112,47 @@ static std::string genEnum(long idx, const Args& args) {
   return os.str();
 }
 
+// ---- scales (round three) -----------------------------------------------------------------------
+// The property speaks about every nonsingular matrix of bounded condition number, whatever the magnitude of its
+// entries: c*A is as well conditioned as A.  All float families are therefore also produced multiplied by m*2^k with k
+// anywhere in the range in which neither the operands nor the results nor the intermediate quantities of the
+// algorithm under test overflow or become subnormal (`lim`, derived per field / op / size in `gen`).
+static long pickScale(Rng& g, long lim) {
+  if (lim <= 0) return 0;
+  static const std::vector<long> marks = {1, 2, 10, 24, 52, 53, 64, 100, 126, 127, 149, 200, 250, 265, 266, 267, 280, 300,
+                                          332, 333, 400, 500, 511, 512, 537, 600, 800, 900, 1000, 1022, 1023, 1074, 1100,
+                                          2000, 4000, 8000, 12000, 16000};
+  long k;
+  switch ((int)g.below(3)) {
+    case 0: {
+      k = g.pick(marks);
+      if (k > lim) k = g.coin() ? lim : (long)g.below(lim + 1);
+      break;
+    }
+    case 1: k = (long)g.below(lim + 1); break;
+    default: k = (long)g.below(std::min(lim, 400L) + 1); break;
+  }
+  return g.coin(2, 3) ? -k : k;  // small magnitudes are where absolute thresholds bite
+}
+
+// make a bounded-condition matrix exactly singular in a way rounding cannot hide (see structSingular)
+static const char* makeStructSingular(Rng& g, std::vector<double>& A, int n, bool allowDup) {
+  int how = (int)g.below(allowDup ? 3 : 2);
+  int t = (int)g.below(n);
+  if (how == 0) { for (int j = 0; j < n; ++j) A[t * n + j] = 0.0; return "zero_row"; }
+  if (how == 1) { for (int i = 0; i < n; ++i) A[i * n + t] = 0.0; return "zero_column"; }
+  int s2 = (t + 1 + (int)g.below(n - 1)) % n;
+  for (int j = 0; j < n; ++j) A[t * n + j] = A[s2 * n + j];
+  return "equal_rows";
+}
+
+static std::string limitSuffix(Rng& g) {
+  if (!g.coin(1, 10)) return "";
+  static const std::vector<std::string> ls = {"z", "-320", "-300", "-100", "-80", "-30", "-12", "-3", "0", "0", "3", "10", "10", "100", "300"};
+  stat("gen_absolute_limit");
+  return "%" + g.pick(ls);
+}
+
 static std::string gen(Rng& g, long idx, const Args& args) {
   {
     std::string mode = args.gets("mode", "");
@@ -840,7 +1160,7 @@ static std::string gen(Rng& g, long idx, const Args& args) {
   }
   std::ostringstream os;
   int fsel = (int)g.below(100);
-  std::string field = fsel < 76 ? "gf" : fsel < 86 ? "f64" : fsel < 93 ? "c64" : "ld";
+  std::string field = fsel < 70 ? "gf" : fsel < 80 ? "f64" : fsel < 87 ? "c64" : fsel < 95 ? "ld" : "v64";
   int n;
   {
     int t = (int)g.below(100);
@@ -854,14 +1174,21 @@ static std::string gen(Rng& g, long idx, const Args& args) {
     int t = (int)g.below(100);
     op = t < 38 ? "solve" : t < 70 ? "invert" : t < 92 ? "det" : t < 96 ? "fmhinv" : "fmhinvT";
   }
+  if (field == "v64") {
+    // SIMD: dense representations only, mostly the LU path
+    if (rep == "diag") rep = g.coin() ? "fm" : "dm";
+    if (op == "fmhinv" || op == "fmhinvT") op = "solve";
+    if (n <= 3 && g.coin(2, 3)) n = 4 + (int)g.below(4);
+  }
   if (op == "fmhinv" || op == "fmhinvT") { rep = "fm"; if (n > 3) n = 1 + (int)g.below(3); }
   // sizes beyond the FieldMatrix instances of this harness (DynamicMatrix only)
-  if (rep == "dm" && g.coin(1, 10)) { static const std::vector<long> bs = {8, 8, 9, 10}; n = (int)g.pick(bs); }
+  if (rep == "dm" && field != "v64" && g.coin(1, 10)) { static const std::vector<long> bs = {8, 8, 9, 10}; n = (int)g.pick(bs); }
   bool piv = rep == "diag" ? true : g.coin(3, 5);
   // the optional argument left out (only meaningful for the dense representations)
   bool dflt = rep != "diag" && piv && g.coin(1, 5);
-  os << field << " " << op << " " << rep << " " << n << " " << (dflt ? "d" : piv ? "1" : "0") << " ";
+  const std::string tail = " " + op + " " + rep + " " + std::to_string(n) + " " + (dflt ? "d" : piv ? "1" : "0") + " ";
   if (field == "gf") {
+    os << field << limitSuffix(g) << tail;
     std::string kind;
     LMat A;
     if (rep == "diag") {
@@ -885,49 +1212,102 @@ static std::string gen(Rng& g, long idx, const Args& args) {
     return os.str();
   }
   // floats
-  size_t scal = field == "c64" ? 2 : 1;
-  std::vector<double> A;
-  if (rep == "diag") {
-    for (int i = 0; i < n; ++i) {
-      if (scal == 2) { double m = 1.0 + (double)g.below(64), th = 3.141592653589793 * rndUnit(g); A.push_back(m * std::cos(th)); A.push_back(m * std::sin(th)); }
-      else A.push_back((g.coin() ? 1 : -1) * (0.5 + (double)g.below(6400) / 100.0));
-    }
-    stat("gen_flt_diag");
-  } else {
+  const bool cx = field == "c64";
+  const int copies = field == "v64" ? LANES : 1;  // independent matrices (SIMD: one per lane)
+  const bool closed = rep != "diag" && n <= 3;
+  // one real bounded-condition matrix of the family that fits the pivoting mode
+  auto realFamily = [&](bool& tinyOut) {
     bool tiny = piv && g.coin(1, 3);
-    std::vector<double> R = tiny ? genPermTiny(g, n) : piv ? genWellCond(g, n) : genDiagDom(g, n);
+    tinyOut = tiny;
     stat(tiny ? "gen_flt_perm_plus_tiny" : piv ? "gen_flt_wellcond" : "gen_flt_diagdom");
-    if (scal == 1) A = R;
-    else {
-      // complex: multiply row i by a unit phase and add a small imaginary perturbation for the diag.-dominant case
-      std::vector<double> I = piv ? genWellCond(g, n) : std::vector<double>(n * n, 0.0);
-      if (piv) {
-        // A = R + i*0.25*I/||I|| keeps cond bounded (perturbation of relative size <= 1/4 of the smallest singular value 1)
-        double mx = 0; for (double x : I) mx = std::max(mx, std::fabs(x));
-        for (auto& x : I) x = 0.2 * x / (mx * n);
-      } else
-        for (int i = 0; i < n; ++i) for (int j = 0; j < n; ++j) if (i != j) I[i * n + j] = rndUnit(g) * 0.1;
-      // exact unit phases i^k on rows and columns (unitary diagonal scalings: singular values, hence the condition
-      // number, and diagonal dominance are unchanged).  mode 1: a real matrix times phases -> every entry is purely
-      // real or purely imaginary, so the pivot search must really use |re| + |im| (or |z|), not a component.
-      int mode = (int)g.below(3);
-      if (mode == 1) std::fill(I.begin(), I.end(), 0.0);
-      std::vector<int> pr(n, 0), pc(n, 0);
-      if (mode >= 1) for (int t = 0; t < n; ++t) { pr[t] = (int)g.below(4); pc[t] = (int)g.below(4); }
-      stat(mode == 0 ? "gen_c64_plain" : mode == 1 ? "gen_c64_real_times_phases" : "gen_c64_phases");
-      for (int t = 0; t < n * n; ++t) {
-        double re = R[t], im = I[t];
-        for (int k = (pr[t / n] + pc[t % n]) % 4; k > 0; --k) { double nr = -im; im = re; re = nr; }  // times i
-        A.push_back(re); A.push_back(im);
+    return tiny ? genPermTiny(g, n) : piv ? genWellCond(g, n) : genDiagDom(g, n);
+  };
+  // exactly singular variants: dense, LU path only (for n <= 3 / diagonal the property fixes nothing); in a SIMD
+  // operand some lanes only
+  const bool wantSingular = rep != "diag" && n >= 4 && g.coin(1, 8);
+  std::vector<double> A;  // all copies, each row-major (complex: re,im pairs)
+  for (int cpy = 0; cpy < copies; ++cpy) {
+    std::vector<double> Ac;
+    if (rep == "diag") {
+      for (int i = 0; i < n; ++i) {
+        if (cx) { double m = 1.0 + (double)g.below(64), th = 3.141592653589793 * rndUnit(g); Ac.push_back(m * std::cos(th)); Ac.push_back(m * std::sin(th)); }
+        else Ac.push_back((g.coin() ? 1 : -1) * (0.5 + (double)g.below(6400) / 100.0));
+      }
+      stat("gen_flt_diag");
+    } else {
+      bool tiny;
+      std::vector<double> R = realFamily(tiny);
+      bool singHere = wantSingular && (copies == 1 || g.coin());
+      if (singHere) stat(std::string("gen_flt_singular_") + makeStructSingular(g, R, n, !cx));
+      if (!cx) Ac = R;
+      else {
+        // complex: multiply row i by a unit phase and add a small imaginary perturbation for the diag.-dominant case
+        std::vector<double> I = piv ? genWellCond(g, n) : std::vector<double>(n * n, 0.0);
+        if (piv) {
+          // A = R + i*0.25*I/||I|| keeps cond bounded (perturbation of relative size <= 1/4 of the smallest singular value 1)
+          double mx = 0; for (double x : I) mx = std::max(mx, std::fabs(x));
+          for (auto& x : I) x = 0.2 * x / (mx * n);
+        } else
+          for (int i = 0; i < n; ++i) for (int j = 0; j < n; ++j) if (i != j) I[i * n + j] = rndUnit(g) * 0.1;
+        // exact unit phases i^k on rows and columns (unitary diagonal scalings: singular values, hence the condition
+        // number, and diagonal dominance are unchanged).  mode 1: a real matrix times phases -> every entry is purely
+        // real or purely imaginary, so the pivot search must really use |re| + |im| (or |z|), not a component.
+        int mode = (int)g.below(3);
+        if (mode == 1 || singHere) std::fill(I.begin(), I.end(), 0.0);  // (a zero row/column must stay zero)
+        std::vector<int> pr(n, 0), pc(n, 0);
+        if (mode >= 1) for (int t = 0; t < n; ++t) { pr[t] = (int)g.below(4); pc[t] = (int)g.below(4); }
+        stat(mode == 0 ? "gen_c64_plain" : mode == 1 ? "gen_c64_real_times_phases" : "gen_c64_phases");
+        for (int t = 0; t < n * n; ++t) {
+          double re = R[t], im = I[t];
+          for (int k = (pr[t / n] + pc[t % n]) % 4; k > 0; --k) { double nr = -im; im = re; re = nr; }  // times i
+          Ac.push_back(re); Ac.push_back(im);
+        }
       }
     }
+    A.insert(A.end(), Ac.begin(), Ac.end());
   }
+  std::vector<double> B;
+  if (op == "solve") for (size_t i = 0; i < (size_t)n * (cx ? 2 : 1) * copies; ++i) B.push_back(rndUnit(g) * 8);
+
+  // ---- scale: A by m*2^ka, b by 2^kb ----
+  long ka = 0, kb = 0;
+  const bool scaled = g.coin(2, 5);
+  if (scaled) {
+    const long E = field == "ld" ? 16000 : 1000;  // usable binary exponent range of the scalar type
+    long limA;
+    if (op == "det" || op == "fmhinv" || op == "fmhinvT") limA = E / n - 8;  // the determinant is of size 2^(n*ka)
+    else if (closed) limA = E / 3 - 10;  // Cramer's rule / adjugate: products of up to three entries (and of b)
+    else limA = E - 100;
+    ka = pickScale(g, limA);
+    if (op == "solve") {
+      if (closed) kb = pickScale(g, E / 3 - 10);
+      else {
+        // the solution is of size 2^(kb-ka)
+        long lo = std::max(-(E - 100), ka - (E - 100)), hi = std::min(E - 100, ka + (E - 100));
+        int how = (int)g.below(4);
+        kb = how <= 1 ? ka : how == 2 ? 0 : pickScale(g, E - 100);
+        kb = std::max(lo, std::min(hi, kb));
+      }
+    }
+    double m = g.coin() ? 1.0 : 1.0 + (double)g.below(1000) / 1000.0;
+    stat("gen_flt_scaled");
+    scaleStat("gen_scale_A", ka);
+    if (op == "solve") scaleStat("gen_scale_x", kb - ka);
+    for (auto& x : A) x *= m;
+    if (field != "ld") {
+      for (auto& x : A) x = std::ldexp(x, (int)ka);
+      for (auto& x : B) x = std::ldexp(x, (int)kb);
+    }
+  }
+  os << field;
+  if (scaled && field == "ld") os << "@" << ka << "@" << kb;
+  os << limitSuffix(g) << tail;
   std::vector<unsigned long long> bits;
   for (double x : A) bits.push_back(bitsOfDbl(x));
   os << listStr(bits);
   if (op == "solve") {
     std::vector<unsigned long long> bb;
-    for (size_t i = 0; i < n * scal; ++i) bb.push_back(bitsOfDbl(rndUnit(g) * 8));
+    for (double x : B) bb.push_back(bitsOfDbl(x));
     os << " " << listStr(bb);
   }
   (void)idx;
